@@ -134,6 +134,12 @@ def z_of_result(c, r):
         return SetV(arr([(IntVal(x), BoolVal(True)) for x in r], I, BoolVal(False)))
     if kind == 'set:name':
         return SetV(arr([(NAMEZ[x], BoolVal(True)) for x in r], M.Name, BoolVal(False)), 'name')
+    if kind == 'dict:int->int':
+        from vlib.vc.symex import DictV
+        v = DictV(arr([(IntVal(k), BoolVal(True)) for k in r], I, BoolVal(False)), arr([(IntVal(k), IntVal(x)) for k, x in r.items()], I, IntVal(0)),
+                  'int', 'int', ne=BoolVal(bool(r)))
+        v._len = IntVal(len(r))
+        return v
     raise NotImplementedError(kind)
 
 
